@@ -16,6 +16,12 @@ def byte_name(tag, k):
     return ("byteof", repr(tag)[:80], k)
 
 
+class ForkIndex:
+    """result of a table lookup whose key is not a single value: (key constant, item) cases and what happens otherwise (Raised | None)"""
+    def __init__(self, cases, otherwise):
+        self.cases, self.otherwise = cases, otherwise
+
+
 class StmtMixin:
     # ----------------------------------------------------- lazy heap fields
     def field_kind(self, cls, attr):
@@ -223,8 +229,52 @@ class StmtMixin:
             if isinstance(vals, Raised):
                 out.append((s, vals))
                 continue
-            out.append((s, self.index_of(vals[0], vals[1], s, fr, e)))
+            r = self.index_of(vals[0], vals[1], s, fr, e)
+            if isinstance(r, ForkIndex):
+                out.extend(self.fork_index(r, vals[1], s, fr, e))
+            else:
+                out.append((s, r))
         return out
+
+    def fork_index(self, fk, idx, st, fr, node):
+        """one successor state per feasible key of a constant table, with `index == key` learned on it"""
+        out = []
+        idx = norm(idx)
+        feas = []
+        for kv, item in fk.cases:
+            t = self.compare(ast.Eq(), idx, kv, st)
+            if t is False:
+                continue
+            feas.append((kv, item, t))
+        known = [c for c in feas if c[2] is True]
+        if known:
+            return [(st, known[0][1])]
+        for j, (kv, item, _t) in enumerate(feas):
+            last = j == len(feas) - 1 and fk.otherwise is None
+            s = st if last else st.fork()
+            if not last:
+                self.budget()
+            self.event(s, fr, "cond", node, (True, (idx, kv)))
+            self.learn_equal(idx, kv, s)
+            out.append((s, item))
+        if fk.otherwise is not None:
+            self.event(st, fr, "cond", node, (False, (idx, Const(None))))
+            out.append((st, fk.otherwise))
+        return out
+
+    def learn_equal(self, v, c, st):
+        """value-level refinement v == constant c: bit facts for single-source bits, a linear fact for linear forms"""
+        v = norm(v)
+        cv = const_of(c)
+        if isinstance(v, BitV) and isinstance(cv, int) and not isinstance(cv, bool):
+            bf = dict(st.extra.get("bitfacts", {}))
+            for i, b in enumerate(v.bits):
+                if isinstance(b, tuple) and b[0] == "s":
+                    bf[b[1]] = int(((cv >> i) & 1) != b[2])
+            st.extra["bitfacts"] = bf
+        la = as_lin(v)
+        if la is not None and la.terms and isinstance(cv, int):
+            self.add_fact(st, lin_add(la, Lin({}, cv), -1), "==0")
 
     def seq_items(self, v, st):
         if isinstance(v, Seq):
@@ -263,6 +313,13 @@ class StmtMixin:
                 return self.lift(base.v[k], st)
             except IndexError:
                 return Raised("IndexError", node, fr.func)
+        if isinstance(base, Const) and isinstance(base.v, dict):
+            if isinstance(idx, Const):
+                try:
+                    return self.lift(base.v[idx.v], st)
+                except (KeyError, TypeError):
+                    return Raised("KeyError", node, fr.func, "key %r not in the table" % (idx.v,))
+            return ForkIndex([(Const(kk), self.lift(vv, st)) for kk, vv in base.v.items()], Raised("KeyError", node, fr.func, "key not in the table"))
         if items is not None:
             if k is not None:
                 if -len(items) <= k < len(items):
@@ -277,6 +334,8 @@ class StmtMixin:
                 cands = items[iv[0]: iv[1] + 1]
                 if all(c.key() == cands[0].key() for c in cands):
                     return cands[0]
+                # a small table indexed by a symbolic bit field: one path per index value
+                return ForkIndex([(Const(j), items[j]) for j in range(iv[0], iv[1] + 1)], None)
             tys = {ty_of(i) for i in items}
             d = set()
             for i in items:
@@ -306,7 +365,24 @@ class StmtMixin:
             set_.setdefault(nm, (0, 255))
             st.extra["symrng"] = set_
             return Sym(nm, "int", rng=(0, 255), of=base, at=idx, deps=frozenset(deps_of(base)))
+        if isinstance(base, Ref) and base.kind == "dict" and (st.heap[base.ident].fields or {}).get("__table__") is not None:
+            tbl = st.heap[base.ident].fields["__table__"]
+            if isinstance(idx, Const):
+                for kk, vv in tbl:
+                    if kk.v == idx.v:
+                        return vv
+                return Raised("KeyError", node, fr.func, "key %r not in the table" % (idx.v,))
+            return ForkIndex(list(tbl), Raised("KeyError", node, fr.func, "key not in the table"))
         if isinstance(base, Ref) and base.kind == "dict":
+            if isinstance(idx, Sym) and idx.attrs.get("pairval") is not None and idx.attrs.get("of_dict") == base.ident:
+                return idx.attrs["pairval"]        # d[k] for a key k obtained by iterating d: that entry's value
+            if isinstance(idx, Const):
+                try:
+                    hit = st.extra.get("dictknown", {}).get((base.ident, idx.v))
+                except TypeError:
+                    hit = None
+                if hit is not None:
+                    return hit
             return Unknown(why="dict item")
         return Unknown(deps_of(base) | deps_of(idx), why="index")
 
@@ -340,7 +416,21 @@ class StmtMixin:
             def from_end(v):
                 # x[-k:] / x[:-k]: a negative constant bound counts from the end (clamped at 0)
                 c = const_of(v)
-                if c is None or c >= 0 or tl is None:
+                if tl is None:
+                    return v
+                if c is None:
+                    lv_ = as_lin(norm(v))
+                    if lv_ is None or self.lin_sign(lv_, st) != "<0":
+                        return v
+                    r = lin_add(tl, lv_, 1)           # a bound known to be negative on this path counts from the end
+                    sg = self.lin_sign(r, st)
+                    if sg in ("<0", "<=0"):
+                        return Const(0)
+                    if sg in (">0", ">=0", "==0"):
+                        rn = lin_norm(r)
+                        return rn
+                    return v
+                if c >= 0:
                     return v
                 r = lin_add(tl, Lin({}, -c), -1)
                 sg = self.lin_sign(r, st)
@@ -415,8 +505,48 @@ class StmtMixin:
     # --------------------------------------------------------------- calls
     def ev_Call(self, e, st, fr):
         f = e.func
+        if any(isinstance(a, ast.Starred) for a in e.args) and not any(k.arg is None for k in e.keywords):
+            # f(*seq): expanded when every starred operand evaluates to a sequence of known length
+            outs = []
+            for s, vals in self.ev_list([a.value if isinstance(a, ast.Starred) else a for a in e.args], st, fr):
+                if isinstance(vals, Raised):
+                    outs.append((s, vals))
+                    continue
+                flat, ok = [], True
+                for a, v in zip(e.args, vals):
+                    if isinstance(a, ast.Starred):
+                        items = self.seq_items(v, s)
+                        if items is None:
+                            ok = False
+                            break
+                        flat.extend(items)
+                    else:
+                        flat.append(v)
+                if not ok:
+                    self.warn("star-args call with a sequence of unknown length in %s" % fr.func.qualname)
+                    outs.append((s, Unknown(why="starargs")))
+                    continue
+                # re-dispatch through a synthetic call whose positional arguments are pre-evaluated values
+                key = ("%star", id(e), len(flat))
+                names = ["%%sa%d_%d" % (id(e) % 100000, i) for i in range(len(flat))]
+                call = self._star_cache.get(key)
+                if call is None:
+                    call = ast.Call(func=e.func, args=[ast.Name(id=n_, ctx=ast.Load()) for n_ in names], keywords=e.keywords)
+                    ast.copy_location(call, e)
+                    ast.fix_missing_locations(call)
+                    self._star_cache[key] = call
+                env = s.envs[fr.fid]
+                for n_, v in zip(names, flat):
+                    env[n_] = v
+                res = self.ev_Call(call, s, fr)
+                for s2, _v in res:
+                    e2 = s2.envs.get(fr.fid)
+                    if e2 is not None:
+                        for n_ in names:
+                            e2.pop(n_, None)
+                outs.extend(res)
+            return outs
         if any(isinstance(a, ast.Starred) for a in e.args) or any(k.arg is None for k in e.keywords):
-            # *args in a call (`RF24(*spi_obj)`-style) never occurs in the package
             self.warn("star-args call in %s" % fr.func.qualname)
             return [(st, Unknown(why="starargs"))]
         if isinstance(f, ast.Name) and f.id in ("any", "all") and len(e.args) == 1 and not e.keywords and isinstance(e.args[0], (ast.GeneratorExp, ast.ListComp)) \
@@ -464,6 +594,37 @@ class StmtMixin:
                 args, kw = vals[: len(e.args)], dict(zip([k.arg for k in e.keywords], vals[len(e.args):]))
                 out.extend(self.call_name(e, nm, args, kw, s, fr))
             return out
+        # any other callee expression (`(a if c else b)(..)`, `table[k](..)`): evaluate it; a method value is called like a method
+        out = []
+        for s, vals in self.ev_list([f] + argexprs, st, fr):
+            if isinstance(vals, Raised):
+                out.append((s, vals))
+                continue
+            callee, rest = vals[0], vals[1:]
+            args, kw = rest[: len(e.args)], dict(zip([k.arg for k in e.keywords], rest[len(e.args):]))
+            out.extend(self.call_value(e, callee, args, kw, s, fr))
+        return out
+
+    _star_cache = {}
+
+    def call_value(self, e, callee, args, kw, st, fr):
+        callee = norm(callee) if hasattr(callee, "key") and not isinstance(callee, Ref) else callee
+        if isinstance(callee, Sym) and callee.ty == "method" and "func" in callee.attrs:
+            sv = callee.attrs.get("selfv")
+            fn = callee.attrs["func"]
+            if sv is not None:
+                return self.call_func(st, fr, e, fn, sv.cls, sv, args, kw)
+            if fn.kind in ("static", "classmethod"):
+                return self.call_func(st, fr, e, fn, fn.cls, None, args, kw)
+            if args:
+                a0 = args[0]
+                return self.call_func(st, fr, e, fn, a0.cls if isinstance(a0, Ref) and a0.kind == "obj" else fn.cls, a0, args[1:], kw)
+        if isinstance(callee, Sym) and callee.ty == "nested":
+            return self.call_func(st, fr, e, callee.attrs["func"], fr.recv, fr.self_val, args, kw, closure=st.envs[fr.fid])
+        if isinstance(callee, Sym) and callee.ty == "class":
+            return self.construct(e, callee.attrs["cls"], args, kw, st, fr)
+        if isinstance(callee, Sym) and callee.ty == "funcref":
+            return self.call_func(st, fr, e, callee.attrs["func"], None, None, args, kw)
         self.warn("unmodelled call form in %s" % fr.func.qualname)
         return [(st, Unknown(why="call"))]
 
@@ -474,6 +635,8 @@ class StmtMixin:
             return self.call_func(st, fr, e, env[nm].attrs["func"], fr.recv, fr.self_val, args, kw, closure=env)
         if nm in holder.nested and nm not in env:
             return self.call_func(st, fr, e, holder.nested[nm], fr.recv, fr.self_val, args, kw, closure=env)
+        if nm in env and isinstance(env[nm], Sym) and env[nm].ty in ("class", "funcref"):
+            return self.call_value(e, env[nm], args, kw, st, fr)
         if nm in env and isinstance(env[nm], Sym) and env[nm].ty == "method" and "func" in env[nm].attrs:
             # a local holding a method value (`handler = self._x if .. else self._y; handler(arg)`)
             mv = env[nm]
@@ -513,13 +676,21 @@ class StmtMixin:
             return [(st, Unknown(why="callback"))]
         if isinstance(base, Sym) and base.ty == "class":
             hit = base.attrs["cls"].lookup(attr)
+            if hit and hit[0] == "method" and hit[1].kind in ("static", "classmethod"):
+                return self.call_func(st, fr, e, hit[1], base.attrs["cls"], None, args, kw)
             if hit and hit[0] == "method" and args:
                 return self.call_func(st, fr, e, hit[1], base.attrs["cls"], args[0], args[1:], kw)
         return self.ext_method(attr, base, args, kw, st, fr, e)
 
     def call_func(self, st, fr, node, func, recv, self_val, args, kw, closure=None):
         tgt = Target("func", func, recv)
-        r = self.model.on_call(self, st, fr, node, tgt, [self_val] + list(args) if func.cls is not None else list(args), kw)
+        if func.kind == "static":
+            self_val = None
+        elif func.kind == "classmethod":
+            c_ = recv if recv is not None else func.cls
+            args = [Sym(("class", c_.qualname), "class", cls=c_, notnone=True)] + list(args)
+            self_val = None
+        r = self.model.on_call(self, st, fr, node, tgt, [self_val] + list(args) if (func.cls is not None and func.kind not in ("static", "classmethod")) else list(args), kw)
         if r is not None:
             return r
         key = (func, recv)
@@ -531,7 +702,7 @@ class StmtMixin:
         env = dict(closure) if closure else {}
         a = func.node.args
         names = [x.arg for x in a.posonlyargs + a.args]
-        if func.cls is not None and func.kind != "nested":
+        if func.cls is not None and func.kind not in ("nested", "static", "classmethod"):
             if not names:
                 raise AnalysisError("method without self: %s" % func.qualname)
             names = names[1:]
@@ -829,6 +1000,8 @@ class StmtMixin:
         k = const_of(idx)
         if isinstance(base, Ref) and base.kind in ("list", "bytearray"):
             cell = st.heap[base.ident]
+            if cell.fields:
+                cell.fields.pop("__packed__", None)
             if not cell.opaque:
                 n = len(cell.items)
                 if k is not None:
